@@ -232,6 +232,14 @@ class Term:
                 # a callable handed to the factory by its caller: what it computes is decided at the call sites
                 self.param_calls.append(node.func.id)
                 return
+            if isinstance(node.func, ast.Name) and node.func.id in self.fassigns:
+                # a local of the factory: compiled element functions are bound from compile_* / builder calls (possibly
+                # inside a list); anything else (picked from a table, unpacked from a tuple) is of unknown provenance
+                vals = [v for v in self.fassigns[node.func.id] if isinstance(v, ast.AST)]
+                compiled = any(isinstance(c_, ast.Call) and (dotted(c_.func) or "").startswith(("compile_", "_build_", "_compile")) for v in vals for c_ in ast.walk(v))
+                if vals and not compiled:
+                    self.param_calls.append(node.func.id)
+                    return
             # compiled element function of unknown shape: fn(x), compiled_elements[i][j](x)
             self.singular.append(f"call of compiled element function {src(node.func)[:30]}")
             return
@@ -378,7 +386,7 @@ def check(prog, rep):
             if ok and not all_san and getattr(cl, "_param_calls", None):
                 # unsanitised, and the term calls a callable that is a parameter of the factory: whether it is singular
                 # is not visible here (a table-driven factory); not decided on this view
-                rep.undecided(f"{construct}: calls the factory parameter `{cl._param_calls[0]}` and is not sanitised; whether that callable is singular depends on the factory's call sites")
+                rep.undecided(f"{construct}: calls `{cl._param_calls[0]}`, a callable of unknown provenance (factory parameter / table entry), and is not sanitised; whether it is singular is not visible here")
                 continue
             rep.ob("R19.1", construct, ok,
                    ("sanitised on every return (singular primitives inside: " + ", ".join(sorted(set(inside))[:3]) + ")") if all_san and inside else
